@@ -30,6 +30,8 @@ pub use operation::Operation;
 pub use program::Program;
 pub use runtime::Event;
 pub use runtime::Runtime;
+#[cfg(feature = "verif")]
+pub use runtime::VerifProbe;
 pub use stack::Stack;
 pub use val::Val;
 pub use var::Var;
